@@ -588,7 +588,7 @@ func (w *c12World) exec(i int, op *c12Op) {
 	expectFail := false // the model says the request is invalid
 	mutated := false
 	var undo func() // second variant of an UNSPECIFIED mutation
-	label := op.K // the operation's part of a violation signature
+	label := op.K   // the operation's part of a violation signature
 	if op.K == "Stmt" || op.K == "Churn" {
 		label = c12R7Label(op)
 	}
